@@ -199,7 +199,7 @@ func c02FailLabel(e *Env, s *Sched) {
 		if !ok || c.Call.StaticCallee() == nil || c.Parent() != w {
 			continue
 		}
-		if !e.Reaches(c.Call.StaticCallee(), func(x *ssa.Function) bool { return x == s.Execute }) {
+		if !e.ReachesRepo(c.Call.StaticCallee(), func(x *ssa.Function) bool { return x == s.Execute }) {
 			continue
 		}
 		// only the first test of this result (the one dominating the others)
